@@ -184,9 +184,11 @@ pub fn c03(cx: &RunCtx) {
 
 // ---------------------------------------------------------------- C04
 fn c04_dom<D: Dom>(cx: &RunCtx) {
-    let k = [Kind::Value];
+    // the placeholder also takes the ends of the range: a regrouping that leaves every ordinary value unchanged
+    // (exact arithmetic) still moves an overflow, so `@+2-3` with @ = MAX must be Err, not MAX - 1
+    let k = [Kind::Value, Kind::MustErrOk, Kind::WellFormedErr];
     let d = if quick(cx) { 6 } else { 8 };
-    tok_run::<D>(cx, "E-TOK Σ_ops", sigma_ops(D::EV), d, 4, ONLY_DEFAULT, &k, None, 2400);
+    tok_run::<D>(cx, "E-TOK Σ_ops", sigma_ops(D::EV), d, 4, 3, &k, None, 2400);
     let mut ops: Vec<&str> = vec!["+", "-", "*", "/", "^"];
     if D::EV.has_percent() {
         ops.push("%");
